@@ -43,9 +43,15 @@ Mismatch(what) == PrintT(<<"MISMATCH", l, what>>) /\ Count(1)
 ShaEntries(b, x) == {i \in 1..Len(b.oracle.sha) : b.oracle.sha[i].inp = x}
 HasSha(b, x) == ShaEntries(b, x) # {}
 ShaHex(b, x) == b.oracle.sha[CHOOSE i \in ShaEntries(b, x) : TRUE].out
-SigEntries(b, sts) == {i \in 1..Len(b.oracle.sig) : b.oracle.sig[i].sts = sts}
-HasSig(b, sts) == SigEntries(b, sts) # {}
-SigHex(b, sts) == b.oracle.sig[CHOOSE i \in SigEntries(b, sts) : TRUE].out
+\* ... under the signing key derived from the PROVIDER's secret for the date, region and service the
+\* specification says the provider is asked for
+SigEntries(b, rr, sts) == {i \in 1..Len(b.oracle.sig) :
+                             LET e == b.oracle.sig[i] IN
+                             /\ e.sts = sts /\ e.secret = b.script.secret
+                             /\ e.kdate = DateYMD(rr.pdate[1], rr.pdate[2], rr.pdate[3])
+                             /\ e.region = b.cfg.region /\ e.service = b.cfg.service}
+HasSig(b, rr, sts) == SigEntries(b, rr, sts) # {}
+SigHex(b, rr, sts) == b.oracle.sig[CHOOSE i \in SigEntries(b, rr, sts) : TRUE].out
 
 EnvOf(b) == [method |-> b.env.method, path |-> b.env.path, query |-> b.env.query,
              hdrs |-> [i \in 1..Len(b.env.hdrs) |-> <<b.env.hdrs[i][1], b.env.hdrs[i][2]>>], body |-> b.env.body]
@@ -54,11 +60,12 @@ CfgOf(b) == [region |-> b.cfg.region, service |-> b.cfg.service, now |-> b.cfg.n
 UseKF(b) == KF = "D7" /\ HasLiteralPlus(b.env.path)
 QOf(b) == QG(EnvOf(b), CfgOf(b), UseKF(b))
 
-\* index of the End event of the case that starts at line i
-EndIdx(i) == CHOOSE j \in (i + 1)..Len(Rec) : Rec[j].ev = "End" /\ \A k \in (i + 1)..(j - 1) : Rec[k].ev # "End"
-HasEnd(i) == \E j \in (i + 1)..Len(Rec) : Rec[j].ev = "End" /\ \A k \in (i + 1)..(j - 1) : Rec[k].ev # "Begin"
+\* the events of the case that starts at line i are lines i+1 .. i+Rec[i].nev (recorded by the harness)
+CaseLines(i) == (i + 1)..Min2(i + Rec[i].nev, Len(Rec))
+HasEnd(i) == \E j \in CaseLines(i) : Rec[j].ev = "End"
+EndIdx(i) == CHOOSE j \in CaseLines(i) : Rec[j].ev = "End"
 \* the canonical path the library exposed for this case, if it did
-CanonIdx(i) == {j \in (i + 1)..Len(Rec) : Rec[j].ev = "StageCanon" /\ \A k \in (i + 1)..(j - 1) : Rec[k].ev # "Begin"}
+CanonIdx(i) == {j \in CaseLines(i) : Rec[j].ev = "StageCanon"}
 
 FullyOk(rr) == rr.err.rule = 0 /\ ~rr.dc
 
@@ -72,8 +79,8 @@ StsOf(b, rr, cp) == rr.stsPre \o ShaHex(b, CReqOf(b, rr, cp))
 \* HMAC of exactly the specification's string-to-sign; a digest the harness never evaluated
 \* cannot have been presented by a party without the key (collision-freedom)
 SigGood(b, rr, cp) ==
-    /\ HasSha(b, rr.payload) /\ HasSha(b, CReqOf(b, rr, cp)) /\ HasSig(b, StsOf(b, rr, cp))
-    /\ rr.sig = SigHex(b, StsOf(b, rr, cp))
+    /\ HasSha(b, rr.payload) /\ HasSha(b, CReqOf(b, rr, cp)) /\ HasSig(b, rr, StsOf(b, rr, cp))
+    /\ rr.sig = SigHex(b, rr, StsOf(b, rr, cp))
 
 ScriptOf(b) == [readyIn |-> b.script.readyIn, ready |-> b.script.ready, pendIn |-> b.script.pendIn,
                 answer |-> b.script.answer, errKind |-> b.script.errKind]
@@ -229,13 +236,35 @@ TrStage ==
     /\ Ev.ev \in StageNames /\ ~skip /\ Adv
     /\ IF StageOk(Ev) THEN UNCHANGED vars /\ Keep ELSE RejectEv(Where)
 
+\* ---- C17: what the validation emitted.  Every captured log record and every rendering of an error or
+\* of an intermediate public value arrives with the set of secrets found in its text (raw, hex, base64).
+\* Key material may never appear; the signature the server computed for a REFUSED request may appear
+\* only in records below debug level.
+KeyTaints == {"secret", "kDate", "kRegion", "kService", "kSigning"}
+TaintSet(e) == {e.taints[i] : i \in 1..Len(e.taints)}
+Forbidden(e) == KeyTaints \cup (IF e.refused THEN {"expectedSig"} ELSE {})
+NoLeak(e) ==
+    CASE e.ev = "Log"    -> e.level \in {"DEBUG", "INFO", "WARN", "ERROR"} => TaintSet(e) \cap Forbidden(e) = {}
+      [] e.ev = "Render" -> TaintSet(e) \cap Forbidden(e) = {}
+TrLeak ==
+    /\ Ev.ev \in {"Log", "Render"} /\ ~skip /\ Adv
+    /\ IF NoLeak(Ev) THEN UNCHANGED vars /\ Keep ELSE RejectEv(Where @@ [leak |-> TaintSet(Ev)])
+
+\* an input the http crate itself refuses is not an observation of the library
+TrInadm ==
+    /\ Ev.ev = "Inadm" /\ Adv /\ Count(3)
+    /\ skip' = TRUE /\ pc' = P("idle")
+    /\ UNCHANGED <<q, script, prov, calls, result, nval, total, r, cur, cpath>>
+
 \* ---- skipping: don't-care cases and the remainder of a rejected case; a panic is never allowed
 TrSkip ==
-    /\ Ev.ev # "Begin" /\ skip /\ Adv /\ Keep
+    /\ Ev.ev \notin {"Begin", "Inadm"} /\ skip /\ Adv /\ Keep
     /\ (Ev.ev \in (StageNames \cup {"End"}) /\ Ev.res = "panic") => Mismatch("panic")
+    /\ (Ev.ev \in {"Log", "Render"} /\ ~NoLeak(Ev)) => Mismatch("leak")
     /\ UNCHANGED vars
 
-TraceNext == l <= Len(Rec) /\ (TrBegin \/ TrPollReady \/ TrCall \/ TrPollFuture \/ TrEnd \/ TrStage \/ TrSkip)
+TraceNext == l <= Len(Rec) /\ (TrBegin \/ TrPollReady \/ TrCall \/ TrPollFuture \/ TrEnd \/ TrStage \/ TrLeak
+                               \/ TrInadm \/ TrSkip)
 TraceSpec == TraceInit /\ [][TraceNext]_tvars
 
 \* every invariant of the pipeline specification is evaluated in every state of the trace
